@@ -83,6 +83,15 @@ def solve_scipy(
         "Nelder-Mead",
     }
 
+    # SciPy matches method names case-insensitively ("slsqp"); the capability
+    # sets above and the SLSQP retry below are spelled canonically
+    canonical = {
+        m.lower(): m
+        for m in HESSIAN_METHODS | DERIVATIVE_FREE_METHODS | BOUNDS_METHODS | {"BFGS", "CG"}
+    }
+    if isinstance(method, str):
+        method = canonical.get(method.lower(), method)
+
     variables = problem.variables
     n = len(variables)
 
@@ -153,8 +162,9 @@ def solve_scipy(
     if x0 is None:
         x0 = _compute_initial_point(variables)
 
-    # Solver options
-    options: dict[str, Any] = {}
+    # Solver options: the caller's own options dict (a documented argument of
+    # scipy.optimize.minimize) is merged, it must not collide with ours
+    options: dict[str, Any] = dict(kwargs.pop("options", None) or {})
     if maxiter is not None:
         options["maxiter"] = maxiter
 
